@@ -21,16 +21,6 @@ structure Inv (s : St) : Prop where
 theorem inv_init : Inv init := by
   refine ⟨?_, ?_, ?_, ?_, ?_⟩ <;> simp [init]
 
-/-- `force_shutdown`'s selection (GENERATED) is exactly "X never left the node" -/
-theorem dropDecision_eq_neverSent (s : St) : dropDecision s = neverSent s := by
-  unfold dropDecision neverSent
-  cases hp : s.phase with
-  | notYet => rfl
-  | holdingCell => rfl
-  | gone => rfl
-  | pending st =>
-    cases st <;> simp [forceShutdownDropsPending, forceShutdownConsiders] <;> cases s.held <;> simp
-
 theorem neverSent_cannot_claim {s : St} (I : Inv s) (h : neverSent s = true) : downstreamCanClaim s = false := by
   unfold neverSent at h
   unfold downstreamCanClaim
@@ -50,7 +40,11 @@ theorem neverSent_cannot_claim {s : St} (I : Inv s) (h : neverSent s = true) : d
     | none => simp [a, hl]
     | some q => cases q <;> simp_all
 
-theorem inv_step (s : St) (op : Op) (I : Inv s) : Inv (step s op) := by
+/-- `Sel`: `force_shutdown`'s (GENERATED) selection is exactly "X never left the node" — proved in Props/C02.lean
+    (`forceclose_selection_is_never_sent`) by unfolding the generated predicate -/
+def Sel : Prop := ∀ s : St, dropDecision s = neverSent s
+
+theorem inv_step (hsel : Sel) (s : St) (op : Op) (I : Inv s) : Inv (step s op) := by
   unfold step
   by_cases hc : s.closed = true
   · simp [hc]; exact I
@@ -179,15 +173,15 @@ theorem inv_step (s : St) (op : Op) (I : Inv s) : Inv (step s op) := by
       refine ⟨I.unsent, I.la, I.heldPrev, by simp, ?_⟩
       intro h
       simp only at h
-      rw [dropDecision_eq_neverSent] at h
+      rw [hsel] at h
       have := neverSent_cannot_claim I h
       simpa [downstreamCanClaim] using this
 
-theorem inv_run (s : St) (ops : List Op) (I : Inv s) : Inv (run s ops) := by
+theorem inv_run (hsel : Sel) (s : St) (ops : List Op) (I : Inv s) : Inv (run s ops) := by
   induction ops generalizing s with
   | nil => exact I
-  | cons op ops ih => exact ih _ (inv_step s op I)
+  | cons op ops ih => exact ih _ (inv_step hsel s op I)
 
-theorem inv_reachable (ops : List Op) : Inv (run init ops) := inv_run _ _ inv_init
+theorem inv_reachable (hsel : Sel) (ops : List Op) : Inv (run init ops) := inv_run hsel _ _ inv_init
 
 end Ldk.FwdClose
